@@ -43,7 +43,11 @@ func c06CheckEnhanced(pq *ProcessedQuery) {
 			verifAssert(enh[a] != enh[b], "C06: expanded terms contain no duplicates")
 		}
 	}
-	again := pq.GetEnhancedKeywords()
+	verifMapOrder(3)
+	verifMapOrderBig(true)
+	again := pq.GetEnhancedKeywords() // every small map in every order, larger ones forwards and backwards
+	verifMapOrderBig(false)
+	verifMapOrder(1)
 	verifAssert(len(again) == len(enh), "C06: expanding twice gives the same list")
 	if len(again) == len(enh) {
 		for k := range enh {
